@@ -48,34 +48,49 @@ def statusCodes : List Int := statusInvalid :: statusCodesNat.map Int.ofNat
 
 /-! ## UTF-8 (RFC 3629, what CPython's strict `bytes.decode()` accepts) -/
 
-def isCont (x : UInt8) : Bool := 0x80 ≤ x.toNat && x.toNat ≤ 0xBF
+/-- decoder state: which octet range may follow (the standard UTF-8 automaton) -/
+inductive Utf8State
+  | start   -- at a character boundary
+  | cont1   -- one continuation octet 80..BF missing
+  | cont2   -- two continuation octets missing
+  | cont3   -- three continuation octets missing
+  | e0      -- after E0: A0..BF (no overlong 3-octet forms), then one more
+  | ed      -- after ED: 80..9F (no surrogates U+D800..U+DFFF), then one more
+  | f0      -- after F0: 90..BF (no overlong 4-octet forms), then two more
+  | f4      -- after F4: 80..8F (nothing above U+10FFFF), then two more
+deriving DecidableEq, Repr
 
-/-- well-formed UTF-8: shortest form only, no surrogates (U+D800..U+DFFF), at most U+10FFFF -/
-def utf8Valid : Bytes → Bool
-  | [] => true
-  | a :: r =>
-    if a.toNat < 0x80 then utf8Valid r
-    else if a.toNat < 0xC2 then false
-    else if a.toNat < 0xE0 then
-      match r with
-      | b :: r1 => isCont b && utf8Valid r1
-      | _ => false
-    else if a.toNat < 0xF0 then
-      match r with
-      | b :: c :: r2 =>
-        (if a.toNat = 0xE0 then 0xA0 ≤ b.toNat && b.toNat ≤ 0xBF
-         else if a.toNat = 0xED then 0x80 ≤ b.toNat && b.toNat ≤ 0x9F
-         else isCont b) && isCont c && utf8Valid r2
-      | _ => false
-    else if a.toNat < 0xF5 then
-      match r with
-      | b :: c :: d :: r3 =>
-        (if a.toNat = 0xF0 then 0x90 ≤ b.toNat && b.toNat ≤ 0xBF
-         else if a.toNat = 0xF4 then 0x80 ≤ b.toNat && b.toNat ≤ 0x8F
-         else isCont b) && isCont c && isCont d && utf8Valid r3
-      | _ => false
-    else false
-termination_by l => l.length
+def utf8Step (s : Utf8State) (a : Nat) : Option Utf8State :=
+  match s with
+  | .start =>
+    if a < 0x80 then some .start
+    else if a < 0xC2 then none
+    else if a < 0xE0 then some .cont1
+    else if a = 0xE0 then some .e0
+    else if a = 0xED then some .ed
+    else if a < 0xF0 then some .cont2
+    else if a = 0xF0 then some .f0
+    else if a < 0xF4 then some .cont3
+    else if a = 0xF4 then some .f4
+    else none
+  | .cont1 => if 0x80 ≤ a ∧ a ≤ 0xBF then some .start else none
+  | .cont2 => if 0x80 ≤ a ∧ a ≤ 0xBF then some .cont1 else none
+  | .cont3 => if 0x80 ≤ a ∧ a ≤ 0xBF then some .cont2 else none
+  | .e0 => if 0xA0 ≤ a ∧ a ≤ 0xBF then some .cont1 else none
+  | .ed => if 0x80 ≤ a ∧ a ≤ 0x9F then some .cont1 else none
+  | .f0 => if 0x90 ≤ a ∧ a ≤ 0xBF then some .cont2 else none
+  | .f4 => if 0x80 ≤ a ∧ a ≤ 0x8F then some .cont2 else none
+
+def utf8ValidFrom : Utf8State → Bytes → Bool
+  | s, [] => s == .start
+  | s, a :: r =>
+    match utf8Step s a.toNat with
+    | some s' => utf8ValidFrom s' r
+    | none => false
+
+/-- well-formed UTF-8 (RFC 3629): shortest form only, no surrogates, at most U+10FFFF,
+    no truncated character at the end -/
+def utf8Valid (b : Bytes) : Bool := utf8ValidFrom .start b
 
 /-- `bytes.decode()` followed (by the observer) by `str.encode()`: identity on well-formed UTF-8,
     `UnicodeDecodeError` (a `ValueError`) otherwise -/
